@@ -268,6 +268,59 @@ def generate(seed, tier):
             g.cases.append("S %s/%d %s" % (ident, j, x))
     for i in range(8 if thorough else 3):
         g.add("val.eq", "V pairs %d %d" % (rng.randint(0, 10 ** 6), 400))
+    # directly constructed actions, model against implementation: repr, ==, len, iteration, membership, reading a repr back
+    MAXS = 9223372036854775807
+    def rint():
+        return rng.choice([0, 0, 1, 2, 3, 5, 7, 12, 63, 64, 65, 100, 1000, 2 ** 31, 2 ** 63 - 2, MAXS, MAXS + 1, 2 ** 70, -1, -3])
+    def ract(near=None):
+        if near is not None and rng.random() < 0.5:
+            t = list(near)
+            if rng.random() < 0.5:
+                return t
+            j = rng.randrange(1, len(t)) if len(t) > 1 else 0
+            if t[j] in ("T", "F"):
+                t[j] = "F" if t[j] == "T" else "T"
+            elif t[j] in ("RAM", "DISK", "WORK", "NONE"):
+                t[j] = rng.choice(["RAM", "DISK", "WORK", "NONE"])
+            elif j > 0:
+                t[j] = str(int(t[j]) + rng.choice([-1, 1]))
+            if t[0] in ("C", "M") and rng.random() < 0.3:
+                t[0] = "M" if t[0] == "C" else "C"
+            return t
+        k = rng.choice(["F", "F", "R", "R", "C", "M", "EF", "ER"])
+        if k == "F":
+            a = rint(); b = a + rng.choice([0, 1, 2, 5, 64, 65, 1000, -1]) if rng.random() < 0.7 else rint()
+            return ["F", str(a), str(b), rng.choice("TF"), rng.choice("TF"), rng.choice(["RAM", "DISK", "WORK", "NONE"])]
+        if k == "R":
+            a = rint(); b = a + rng.choice([0, 1, 2, 5, 64, 65, 1000, -1]) if rng.random() < 0.7 else rint()
+            return ["R", str(b), str(a), rng.choice("TF")]
+        if k in ("C", "M"):
+            return [k, str(rint()), rng.choice(["RAM", "DISK", "WORK", "NONE"]), rng.choice(["RAM", "DISK", "WORK", "NONE"])]
+        return [k]
+    def pyrepr(t):
+        iz = lambda v: "sys.maxsize" if int(v) == MAXS else v
+        bz = lambda v: "True" if v == "T" else "False"
+        if t[0] == "F":
+            return "Forward(%s,_%s,_%s,_%s,_StorageType.%s)" % (iz(t[1]), iz(t[2]), bz(t[3]), bz(t[4]), t[5])
+        if t[0] == "R":
+            return "Reverse(%s,_%s,_%s)" % (iz(t[1]), iz(t[2]), bz(t[3]))
+        if t[0] in ("C", "M"):
+            return "%s(%s,_StorageType.%s,_StorageType.%s)" % ("Copy" if t[0] == "C" else "Move", iz(t[1]), t[2], t[3])
+        return "EndForward()" if t[0] == "EF" else "EndReverse()"
+    BAD = ["Forward(1,_2)", "Reverse(3,_2,_True,_False)", "Copy(1,_StorageType.RAM)", "Forward(1,_2,_True,_False,_StorageType.TAPE)", "Backward(2,_1,_True)",
+           "Move(one,_StorageType.RAM,_StorageType.WORK)", "Reverse(3,_2,_True", "Forward(0,_sys.maxsiz,_True,_False,_StorageType.RAM)"]
+    for i in range(1500 if thorough else 400):
+        a = ract()
+        b = ract(a)
+        if a[0] in ("F", "R"):
+            n0, n1 = (int(a[1]), int(a[2])) if a[0] == "F" else (int(a[2]), int(a[1]))
+            if n1 - n0 > MAXS:          # len() beyond sys.maxsize: OverflowError, outside the model
+                continue
+            k = rng.choice([n0 - 1, n0, n0 + 1, n1 - 1, n1, n1 + 1, (n0 + n1) // 2])
+        else:
+            k = rint()
+        txt = rng.choice(BAD) if rng.random() < 0.1 else pyrepr(ract(a))
+        g.add("val.act", "V act %s / %s / %d / %s" % (" ".join(a), " ".join(b), k, txt))
     # ---------------- pure functions
     NN, SS = (260, 24) if thorough else (120, 14)
     for n in range(0, NN + 1):
